@@ -30,6 +30,12 @@ class C08(Prop):
     trusted_base = ['harness/hist_common.hpp canonical dump (reads every public getter, ids replaced by creation ordinals)']
 
     def generate(self, seed, tier, scale=1):
+        cases = self._generate(seed, tier, scale)
+        if scale == 1:
+            self._routes = histlib.count_routes(self.corpus() + cases)
+        return cases
+
+    def _generate(self, seed, tier, scale=1):
         rnd = random.Random(seed * 7919 + 8)
         n = (110 if tier == 'quick' else 2500) * scale
         cases = []
@@ -39,6 +45,13 @@ class C08(Prop):
 
     def corpus(self):
         return histlib.load_corpus(self.id)
+
+    def extra_checks(self, ctx):
+        # which further public entry points (notes/route-audit.md) this run went through, and how many script lines each got
+        routes = getattr(self, '_routes', {})
+        ctx['ev']['entry_points'] = {k: v for k, v in histlib.ROUTES.items() if any(r == k or r.startswith(k + ' ') for r in routes)}
+        ctx['ev']['lines_per_route'] = routes
+        return []
 
     def compare(self, a, b):
         return histlib.compare(a, b)
